@@ -72,6 +72,9 @@ class Fn:
             if e.id not in self.types:
                 self.fail(e, "unknown variable")
             return e.id, self.types[e.id]
+        if isinstance(e, ast.Attribute) and isinstance(e.value, ast.Name) and e.value.id == "self" \
+                and ("self_" + e.attr) in self.types:
+            return "self_" + e.attr, self.types["self_" + e.attr]
         if isinstance(e, ast.UnaryOp):
             if isinstance(e.op, ast.USub):
                 a, _ = self.expr(e.operand, Z)
@@ -663,7 +666,111 @@ def gen_validate():
     return "\n".join(out)
 
 
-SPECIAL = {"Gen_validate": gen_validate}
+def gen_rank():
+    """entanglement.low_rank_approximation / _effective_rank (C07, C09): shape-checked extraction"""
+    rel = "qclib/entanglement.py"
+    with open(os.path.join(REPO, rel), newline="") as fh:
+        tree = ast.parse(fh.read().replace("\r\n", "\n"))
+    def fail(msg):
+        raise Unsupported(f"{rel}: low_rank_approximation/_effective_rank no longer has the expected shape: {msg}")
+    b = [ast.unparse(x) for x in _body(_find_func(tree, None, "low_rank_approximation", rel))]
+    exp = ["effective_rank = _effective_rank(singular_values)",
+           "if 0 < low_rank < effective_rank:\n    effective_rank = low_rank",
+           "rank = int(2 ** ceil(log2(effective_rank)))",
+           "return (rank, svd_u[:, :rank], singular_values[:rank], svd_v[:rank, :])"]
+    if b != exp:
+        fail(str(b))
+    e = _body(_find_func(tree, None, "_effective_rank", rel))
+    if len(e) != 1 or not isinstance(e[0], ast.Return):
+        fail("_effective_rank body")
+    call = e[0].value
+    ok = (isinstance(call, ast.Call) and ast.unparse(call.func) == "sum" and isinstance(call.args[0], ast.GeneratorExp)
+          and isinstance(call.args[0].elt, ast.Compare) and ast.unparse(call.args[0].elt.left) == "j"
+          and isinstance(call.args[0].elt.ops[0], ast.Gt) and ast.unparse(call.args[0].generators[0].iter) == "singular_values")
+    if not ok:
+        fail(ast.unparse(e[0]))
+    thr = call.args[0].elt.comparators[0]
+    if not (isinstance(thr, ast.BinOp) and isinstance(thr.op, ast.Pow) and isinstance(thr.left, ast.Constant)
+            and isinstance(thr.right, ast.UnaryOp) and isinstance(thr.right.op, ast.USub) and isinstance(thr.right.operand, ast.Constant)):
+        fail("threshold " + ast.unparse(thr))
+    q = Fraction(1, int(thr.left.value) ** int(thr.right.operand.value))
+    hdr = HEADER.format(src=rel).replace("From QV Require Import GenLib.", "From Coq Require Import QArith NArith.\nFrom QV Require Import GenLib.")
+    return (hdr + f"Definition rank_threshold : Q := {_q(q)}.\n"
+            "Definition effective_rank (s : list Q) : N := N.of_nat (length (filter (fun x => negb (Qle_bool x rank_threshold)) s)).\n"
+            "(* rank = 2 ** ceil(log2(min-like cap)) *)\n"
+            "Definition rank_of (low_rank eff : N) : N :=\n"
+            "  let e := if ((0 <? low_rank)%N && (low_rank <? eff)%N)%bool then low_rank else eff in (2 ^ N.log2_up e)%N.\n")
+
+
+def gen_width():
+    """declared widths of BdspInitialize / DcspInitialize and the qubit count of tree_register.add_register (C11)"""
+    out = [HEADER.format(src="qclib/state_preparation/bdsp.py, dcsp.py, util/tree_register.py")]
+
+    def load(rel):
+        with open(os.path.join(REPO, rel), newline="") as fh:
+            return ast.parse(fh.read().replace("\r\n", "\n"))
+
+    def expr_of(rel, tree, cls, fname, target, types, subst=None):
+        fn = _find_func(tree, cls, fname, rel)
+        hits = [st for st in ast.walk(fn) if isinstance(st, ast.Assign) and ast.unparse(st.targets[0]) == target]
+        if len(hits) != 1:
+            raise Unsupported(f"{rel}: expected exactly one assignment to {target} in {fname}, found {len(hits)}")
+        tr = Translator(rel)
+        f = Fn(tr, fn, {"name": fname})
+        tr.groups, tr.done, tr.recursive, tr.cfg_by_name = [], [], set(), {}
+        f.types.update(types)
+        val = hits[0].value
+        if subst:
+            class Sub(ast.NodeTransformer):
+                def generic_visit(self2, node):
+                    src = ast.unparse(node) if isinstance(node, ast.expr) else None
+                    if src in subst:
+                        return ast.Name(id=subst[src], ctx=ast.Load())
+                    return super().generic_visit(node)
+            val = Sub().visit(val)
+        return f.expr(val, Z)[0]
+
+    rel = "qclib/state_preparation/bdsp.py"
+    t = load(rel)
+    e = expr_of(rel, t, "BdspInitialize", "_get_num_qubits", "self.num_qubits", {"n_qubits": Z, "self_split": Z})
+    out.append(f"Definition bdsp_width (n_qubits self_split : Z) : Z := {e}.")
+    fn = _find_func(t, "BdspInitialize", "__init__", rel)
+    hits = {ast.unparse(st.value) for st in ast.walk(fn) if isinstance(st, ast.Assign) and ast.unparse(st.targets[0]) == "self.split"}
+    if hits != {"int(ceil(log2(len(params)) / 2))", "opt_params.get('split')"}:
+        raise Unsupported(f"{rel}: default split expression changed: {hits}")
+    out.append("Definition bdsp_default_split (n_qubits : Z) : Z := ceil_div n_qubits 2.")
+    fn = _find_func(t, "BdspInitialize", "_define_initialize", rel)
+    calls = [ast.unparse(st.value) for st in fn.body if isinstance(st, ast.Expr) and isinstance(st.value, ast.Call)]
+    if calls != ["add_register(circuit, angle_tree, n_qubits - self.split)", "top_down(angle_tree, circuit, n_qubits - self.split)",
+                 "bottom_up(angle_tree, circuit, n_qubits - self.split)"]:
+        raise Unsupported(f"{rel}: _define_initialize calls changed: {calls}")
+    out.append("Definition bdsp_start_level (n_qubits self_split : Z) : Z := n_qubits - self_split.")
+    rel = "qclib/state_preparation/dcsp.py"
+    t = load(rel)
+    e = expr_of(rel, t, "DcspInitialize", "_get_num_qubits", "self.num_qubits", {"len_params": Z}, {"len(params)": "len_params"})
+    out.append(f"Definition dcsp_width (len_params : Z) : Z := {e}.")
+    fn = _find_func(t, "DcspInitialize", "_define_initialize", rel)
+    calls = [ast.unparse(st.value) for st in fn.body if isinstance(st, ast.Expr) and isinstance(st.value, ast.Call)]
+    if calls != ["add_register(circuit, angle_tree, n_qubits - 1)", "bottom_up(angle_tree, circuit, n_qubits)"]:
+        raise Unsupported(f"{rel}: _define_initialize calls changed: {calls}")
+    out.append("Definition dcsp_start_level (n_qubits : Z) : Z := n_qubits - 1.")
+    rel = "qclib/state_preparation/util/tree_register.py"
+    t = load(rel)
+    fn = _find_func(t, None, "add_register", rel)
+    src = [ast.unparse(st) for st in fn.body]
+    need = ["noutput = level", "nqubits = sum(level_nodes[:start_level])",
+            "nqubits += level_nodes[start_level] * (noutput - start_level)", "nancilla = nqubits - noutput"]
+    pos = [src.index(x) if x in src else -1 for x in need]
+    if -1 in pos or pos != sorted(pos):
+        raise Unsupported(f"{rel}: add_register counting statements changed: {src}")
+    out.append("(* add_register on a complete tree of depth n: level l has 2^l nodes, noutput = n *)\n"
+               "Definition alloc_width (n start_level : Z) : Z :=\n"
+               "  let nqubits := zsum (map (fun l => 2 ^ l) (zrange 0 start_level)) in\n"
+               "  let nqubits := nqubits + 2 ^ start_level * (n - start_level) in nqubits.")
+    return "\n".join(out) + "\n"
+
+
+SPECIAL = {"Gen_validate": gen_validate, "Gen_rank": gen_rank, "Gen_width": gen_width}
 
 
 def generate(name):
